@@ -56,6 +56,8 @@ def run_history(seed, trials):
         names = ["a", "b", "c", ("a", "b"), ("a", 0), ("b", "c", "d"), "d", ("d", "e")]
         for step in range(rng.randint(1, 8)):
             op = rng.choice(["res", "res", "res", "win", "align", "freeze", "bad"])
+            if op == "win" and not big and m.data_width > 8 and rng.random() < 0.6:
+                op = "dwin"
             before = snapshot(m)
             try:
                 if op == "res":
@@ -95,6 +97,25 @@ def run_history(seed, trials):
                     if not w._frozen:
                         problems.append(("window not frozen", log[-1])); break
                     model.append((s, e)); cursor = e
+                elif op == "dwin":
+                    # a DENSE window over a narrower map (ratio parent/child data width > 1): it occupies every address of the
+                    # range it returns, odd ones included - later items at addresses that are not multiples of the ratio must
+                    # still be refused when they fall inside it
+                    lg = (m.data_width // 8).bit_length() - 1
+                    waw = rng.randint(lg, aw + lg)
+                    w = MemoryMap(addr_width=waw, data_width=8, alignment=rng.choice([lg, lg, lg + 1]))
+                    if rng.random() < 0.5:
+                        w.add_resource(R(), name=rng.choice(["a", "x", "y"]), size=1)
+                    addr = rng.choice([None, None, 0, 1, 2, 3, 4, 5, 6, 8]); name = rng.choice([None, "w", "dw", ("a", "b")])
+                    log.append(("add_window dense", waw, name, addr))
+                    s, e, r = m.add_window(w, addr=addr, name=name, sparse=False)
+                    if r != 1 << lg or (addr is not None and s != addr) or e - s < max((1 << waw) >> lg, 1):
+                        problems.append(("dense window placement", log[-1], (s, e, r))); break
+                    if not (0 <= s < e <= 1 << aw) or any(not (e <= a or b <= s) for a, b in model):
+                        problems.append(("bounds/overlap", log[-1], (s, e), list(model))); break
+                    if frozen:
+                        problems.append(("frozen map accepted", log[-1])); break
+                    model.append((s, e)); cursor = e
                 elif op == "align":
                     a = rng.choice([0, 1, 2, 3, -1]) if not big else rng.choice([0, 2, 45, 53])
                     log.append(("align_to", a))
@@ -116,6 +137,15 @@ def run_history(seed, trials):
                     problems.append(("failed call moved the placement cursor", log[-1], probe, au(cursor, al), log)); break
                 cursor = probe
                 continue
+            except Exception as ex:
+                # anything but the documented ValueError / TypeError raised from INSIDE the library (a failed internal assertion, an
+                # IndexError ...) is an internal error, not a refusal: the request was neither placed nor refused as documented
+                tb = ex.__traceback__
+                while tb.tb_next is not None:
+                    tb = tb.tb_next
+                if "amaranth_soc" not in tb.tb_frame.f_code.co_filename:
+                    raise
+                problems.append(("internal error instead of a placement or a documented refusal", log[-1], f"{type(ex).__name__}: {ex}"[:80], log)); break
             rep = sorted([rg[:2] for _, _, rg in m.resources()] + [rg[:2] for _, _, rg in m.windows()])
             if rep != sorted(model):
                 problems.append(("reporting", rep, sorted(model), log)); break
